@@ -56,11 +56,15 @@ IpfilterOpts == << "none", "v4only", "notA" >>
 PortsOpts == << "none", "range", "single", "exhausted" >>
 MdnsOpts == << "off", "gather", "query" >>
 MuxOpts == << "none", "udp", "tcp", "both" >>
+\* an address rewrite rule (replace mode) for host candidates that maps ONE local address to an external address of the OTHER
+\* family ("x6": 10.1.0.1 -> 2001:db8::77, "x4": fd00::1 -> 1.2.3.4): the candidate is published with the external address,
+\* and it is the PUBLISHED address whose network type has to be enabled
+RewriteOpts == << "none", "x6", "x4" >>
 PortMin == 5000
 PortMaxOf(p) == IF p = "single" THEN 5000 ELSE IF p = "exhausted" THEN 5001 ELSE 5003
 
-Radix == << Len(NetsOpts), Len(TypesOpts), Len(LoopOpts), Len(IfilterOpts), Len(IpfilterOpts), Len(PortsOpts), Len(MdnsOpts), Len(MuxOpts) >>
-NCfg == Radix[1] * Radix[2] * Radix[3] * Radix[4] * Radix[5] * Radix[6] * Radix[7] * Radix[8]
+Radix == << Len(NetsOpts), Len(TypesOpts), Len(LoopOpts), Len(IfilterOpts), Len(IpfilterOpts), Len(PortsOpts), Len(MdnsOpts), Len(MuxOpts), Len(RewriteOpts) >>
+NCfg == Radix[1] * Radix[2] * Radix[3] * Radix[4] * Radix[5] * Radix[6] * Radix[7] * Radix[8] * Radix[9]
 NTab == 1 + Len(Slot1) * Len(Slot2) * Len(Slot3)
 NCases == NCfg * NTab
 Digit(n, k) == LET RECURSIVE Div(_, _)
@@ -68,7 +72,7 @@ Digit(n, k) == LET RECURSIVE Div(_, _)
                IN Div(n, k) % Radix[k]
 CfgOf(n) == [nets |-> NetsOpts[Digit(n, 1) + 1], types |-> TypesOpts[Digit(n, 2) + 1], loopback |-> LoopOpts[Digit(n, 3) + 1],
              ifilter |-> IfilterOpts[Digit(n, 4) + 1], ipfilter |-> IpfilterOpts[Digit(n, 5) + 1], ports |-> PortsOpts[Digit(n, 6) + 1],
-             mdns |-> MdnsOpts[Digit(n, 7) + 1], mux |-> MuxOpts[Digit(n, 8) + 1]]
+             mdns |-> MdnsOpts[Digit(n, 7) + 1], mux |-> MuxOpts[Digit(n, 8) + 1], rewrite |-> RewriteOpts[Digit(n, 9) + 1]]
 TabOf(t) == IF t = 0 THEN RichTable
             ELSE LET u == t - 1 IN <<Slot1[(u % Len(Slot1)) + 1]>> \o Slot2[((u \div Len(Slot1)) % Len(Slot2)) + 1]
                                    \o Slot3[((u \div (Len(Slot1) * Len(Slot2))) % Len(Slot3)) + 1]
@@ -96,7 +100,16 @@ AcceptedMay(cfg, T) == {a \in AddrsOn(cfg, T) : AddrMay(cfg, a)}
 MuxAddrs(T) == {a \in UNION {Rng(i.addrs) : i \in {x \in Rng(T) : x.up /\ ~x.lo}} : a.cls = "global"}
 UdpMux(cfg) == cfg.mux \in {"udp", "both"}
 TcpMux(cfg) == cfg.mux \in {"tcp", "both"}
-En(cfg, tr, a) == NetName(tr, a.fam) \in NetsOf(cfg)
+\* the rule is configured only where nothing else decides the published address: the agent's own sockets (no mux), no mDNS
+\* name in place of the address, host candidates enabled
+RewriteOn(cfg) == cfg.rewrite # "none" /\ cfg.mux = "none" /\ cfg.mdns # "gather" /\ "host" \in TypesOf(cfg)
+RwLocal(cfg) == IF cfg.rewrite = "x6" THEN "10.1.0.1" ELSE "fd00::1"
+RwExt(cfg) == IF cfg.rewrite = "x6" THEN "2001:db8::77" ELSE "1.2.3.4"
+Rewritten(cfg, ip) == RewriteOn(cfg) /\ ip = RwLocal(cfg)
+PubIP(cfg, ip) == IF Rewritten(cfg, ip) THEN RwExt(cfg) ELSE ip
+PubFam(cfg, a) == IF Rewritten(cfg, a.ip) THEN (IF cfg.rewrite = "x6" THEN "v6" ELSE "v4") ELSE a.fam
+\* required only if both the family of the socket and the family of the published address are enabled (the weaker reading)
+En(cfg, tr, a) == NetName(tr, a.fam) \in NetsOf(cfg) /\ NetName(tr, PubFam(cfg, a)) \in NetsOf(cfg)
 
 \* the agent's own sockets compete for the ports of the range: with a single port and reflexive gathering enabled the
 \* host gatherer may find its port taken ("has a listener" fails), so nothing is required then
